@@ -51,6 +51,36 @@ TB_GO_STDLIB_CORS = ['strings.ToLower is an oracle (tabulated per case by callin
                      'net/http Header canonicalisation and httptest.ResponseRecorder']
 
 PROPS = {
+    'C03': dict(
+        domains=[dict(name='perm', quick=16000, thorough=400000)],
+        verdicts=['c03_*'],
+        project={'perm': proj_allow},
+        prop_files=['props/C03.v'],
+        trivial_classes=('404',),
+        rule='tables with distinct (method, template) pairs (all token forms and the plain fragment, both routers) built in the '
+             'base order and in 4 random permutations of services and of routes within each service, same request to each; '
+             'distinct = distinct case text; non-trivial = outcome is not a plain 404',
+        trusted_base=TB_ROUTING,
+        assumptions=['service orders that trip the net/http mux panic (finding of C11) are not used'],
+        explanation='Theorems Props.C03_best_service / C03_literal_beats_variable / C03_longer_root_beats_prefix and the '
+                    'refutation C03_refuted_score_tie; metamorphic comparison of the implementation across permuted builds '
+                    'plus the dominance predicate S.best_match_ok on every invoked route.',
+    ),
+    'C18': dict(
+        domains=[dict(name='twin', quick=24000, thorough=500000)],
+        verdicts=['c18_*'],
+        project={'twin': proj_allow},
+        prop_files=['props/C18.v'],
+        trivial_classes=('404',),
+        rule='tables of the common fragment (literal roots, literal / plain-variable route segments) and requests derived from '
+             'their routes (15% with an empty segment or trailing slash), each dispatched on twin containers differing only in '
+             'the router; distinct = distinct case text; non-trivial = outcome under CurlyRouter is not a plain 404',
+        trusted_base=TB_ROUTING,
+        assumptions=[],
+        explanation='The full statement is refuted in Coq (C18_refuted_ranking, C18_refuted_empty_segment; known findings '
+                    'K-C18-1/2); agreement is checked on the implementation for every generated case and anything outside the '
+                    'two finding classes is a violation; the model of each router is compared with the implementation.',
+    ),
     'C09': dict(
         domains=[dict(name='cors', quick=24000, thorough=400000)],
         verdicts=['c09_*'],
